@@ -1,8 +1,387 @@
 import QP.Base
+import QP.Model.PT
+/-!
+# C03 — declared parameters suffice, declared constraints are enforced
+
+Built on the shared pulse-template model `QP.PT` (`compile`, `createProgram`, `Scope`).
+
+* `parameterNames` mirrors the `parameter_names` property of every pulse template class
+  (measurement parameters, constrained parameters, mapping substitution, loop index removal, the
+  reserved time variable `t`).  PF-13 is modelled *repaired*: `ArithmeticAtomicPulseTemplate` declares the
+  parameters of its own measurement declarations.
+* `WF` — what the constructors guarantee and the theorems need: a `MappingPulseTemplate` maps *every*
+  parameter of its body (`MappingPulseTemplate.__init__` completes a partial mapping with identities).
+* `NoReservedT` — no expression whose class strips `t` from its declared names mentions `t`
+  (`FunctionPT` duration, `ParallelChannelPT` channel values, `ArithmeticPT` scalar operand): the reserved
+  name class of the open finding PF-14.
+* `visible` — the independent enumeration of what the *played* (= visited by instantiation) nodes must
+  evaluate, each paired with the scope that node sees: every parameter constraint (`isCons`), and the
+  expressions that are evaluated unconditionally (`needs`: repetition counts, loop ranges, constant
+  durations, table entries, eagerly mapped parameters) and the keys an eagerly mapping node demands.  No builder, no waveforms, no error handling.
+* `consOutcome` — the judge: validate the visible constraints in visiting order.
+-/
 namespace QP.C03
+open QP QP.PT
+
+/-! ## declared parameter names -/
+
+def measVars (ms : List MeasDecl) : List String := ms.flatMap (fun d => d.start.vars ++ d.len.vars)
+def consVars (cs : List Expr) : List String := cs.flatMap Expr.vars
+def noT (xs : List String) : List String := xs.filter (fun x => x ≠ "t")
+def tentryVars (es : List TEntry) : List String := es.flatMap (fun e => e.t.vars ++ e.v.vars)
+def tableVars (entries : List (Chan × List TEntry)) : List String := entries.flatMap (fun ce => tentryVars ce.2)
+def pentryVars (es : List PEntry) : List String := es.flatMap (fun e => e.t.vars ++ e.vs.flatMap Expr.vars)
+def kvVars (m : List (String × Expr)) : List String := m.flatMap (fun ke => ke.2.vars)
+def scalarVars : Scalar → List String
+  | .uniform e => e.vars
+  | .perChan m => kvVars m
+def optVars : Option Expr → List String
+  | some e => e.vars
+  | none => []
+
+mutual
+/-- `parameter_names` of every class (PF-13 repaired in `arithAtomic`) -/
+def parameterNames : PT → List String
+  | .const _ dur amps meas => kvVars amps ++ dur.vars ++ measVars meas
+  | .table _ entries meas cons => tableVars entries ++ consVars cons ++ measVars meas
+  | .point _ _ entries meas cons => pentryVars entries ++ measVars meas ++ consVars cons
+  | .func _ _ dur e meas cons => noT (dur.vars ++ e.vars) ++ measVars meas ++ consVars cons
+  | .seq _ subs meas cons => consVars cons ++ measVars meas ++ parameterNamesList subs
+  | .rep _ body count meas cons => parameterNames body ++ consVars cons ++ measVars meas ++ count.vars
+  | .forLoop _ body idx start stop step meas cons =>
+      (parameterNames body).filter (fun x => x ≠ idx) ++ (start.vars ++ stop.vars ++ step.vars) ++ consVars cons
+        ++ measVars meas
+  | .mapping _ _ pm _ _ cons => kvVars pm ++ consVars cons
+  | .parallel _ body over => parameterNames body ++ noT (kvVars over)
+  | .atomicMulti _ subs dur meas cons => measVars meas ++ consVars cons ++ parameterNamesList subs ++ optVars dur
+  | .arith _ body _ scalar _ => parameterNames body ++ noT (scalarVars scalar)
+  | .arithAtomic _ lhs _ rhs meas => parameterNames lhs ++ parameterNames rhs ++ measVars meas
+  | .timeReversal _ body => parameterNames body
+def parameterNamesList : List PT → List String
+  | [] => []
+  | p :: ps => parameterNames p ++ parameterNamesList ps
+end
+
+mutual
+/-- `parameter_names` as the pinned tree has it (PF-13: the measurement parameters of an
+`ArithmeticAtomicPulseTemplate` are not declared) -/
+def parameterNamesPinned : PT → List String
+  | .const _ dur amps meas => kvVars amps ++ dur.vars ++ measVars meas
+  | .table _ entries meas cons => tableVars entries ++ consVars cons ++ measVars meas
+  | .point _ _ entries meas cons => pentryVars entries ++ measVars meas ++ consVars cons
+  | .func _ _ dur e meas cons => noT (dur.vars ++ e.vars) ++ measVars meas ++ consVars cons
+  | .seq _ subs meas cons => consVars cons ++ measVars meas ++ parameterNamesPinnedList subs
+  | .rep _ body count meas cons => parameterNamesPinned body ++ consVars cons ++ measVars meas ++ count.vars
+  | .forLoop _ body idx start stop step meas cons =>
+      (parameterNamesPinned body).filter (fun x => x ≠ idx) ++ (start.vars ++ stop.vars ++ step.vars)
+        ++ consVars cons ++ measVars meas
+  | .mapping _ _ pm _ _ cons => kvVars pm ++ consVars cons
+  | .parallel _ body over => parameterNamesPinned body ++ noT (kvVars over)
+  | .atomicMulti _ subs dur meas cons =>
+      measVars meas ++ consVars cons ++ parameterNamesPinnedList subs ++ optVars dur
+  | .arith _ body _ scalar _ => parameterNamesPinned body ++ noT (scalarVars scalar)
+  | .arithAtomic _ lhs _ rhs _ => parameterNamesPinned lhs ++ parameterNamesPinned rhs
+  | .timeReversal _ body => parameterNamesPinned body
+def parameterNamesPinnedList : List PT → List String
+  | [] => []
+  | p :: ps => parameterNamesPinned p ++ parameterNamesPinnedList ps
+end
+
+/-! ## well-formedness established by the constructors -/
+
+mutual
+/-- every `MappingPulseTemplate` maps all parameters its body declares -/
+def WF : PT → Prop
+  | .const .. => True
+  | .table .. => True
+  | .point .. => True
+  | .func .. => True
+  | .seq _ subs _ _ => WFList subs
+  | .rep _ body _ _ _ => WF body
+  | .forLoop _ body _ _ _ _ _ _ => WF body
+  | .mapping _ body pm _ _ _ => (∀ n ∈ parameterNames body, n ∈ pm.map (·.1)) ∧ WF body
+  | .parallel _ body _ => WF body
+  | .atomicMulti _ subs _ _ _ => WFList subs
+  | .arith _ body _ _ _ => WF body
+  | .arithAtomic _ lhs _ rhs _ => WF lhs ∧ WF rhs
+  | .timeReversal _ body => WF body
+def WFList : List PT → Prop
+  | [] => True
+  | p :: ps => WF p ∧ WFList ps
+end
+
+mutual
+def wfB : PT → Bool
+  | .const .. => true
+  | .table .. => true
+  | .point .. => true
+  | .func .. => true
+  | .seq _ subs _ _ => wfBList subs
+  | .rep _ body _ _ _ => wfB body
+  | .forLoop _ body _ _ _ _ _ _ => wfB body
+  | .mapping _ body pm _ _ _ => (parameterNames body).all (fun n => (pm.map (·.1)).contains n) && wfB body
+  | .parallel _ body _ => wfB body
+  | .atomicMulti _ subs _ _ _ => wfBList subs
+  | .arith _ body _ _ _ => wfB body
+  | .arithAtomic _ lhs _ rhs _ => wfB lhs && wfB rhs
+  | .timeReversal _ body => wfB body
+def wfBList : List PT → Bool
+  | [] => true
+  | p :: ps => wfB p && wfBList ps
+end
+
+mutual
+/-- the reserved time variable `t` is used only where it means time (PF-14 class otherwise) -/
+def NoReservedT : PT → Prop
+  | .const .. => True
+  | .table .. => True
+  | .point .. => True
+  | .func _ _ dur _ _ _ => "t" ∉ dur.vars
+  | .seq _ subs _ _ => NoReservedTList subs
+  | .rep _ body _ _ _ => NoReservedT body
+  | .forLoop _ body _ _ _ _ _ _ => NoReservedT body
+  | .mapping _ body _ _ _ _ => NoReservedT body
+  | .parallel _ body over => "t" ∉ kvVars over ∧ NoReservedT body
+  | .atomicMulti _ subs _ _ _ => NoReservedTList subs
+  | .arith _ body _ scalar _ => "t" ∉ scalarVars scalar ∧ NoReservedT body
+  | .arithAtomic _ lhs _ rhs _ => NoReservedT lhs ∧ NoReservedT rhs
+  | .timeReversal _ body => NoReservedT body
+def NoReservedTList : List PT → Prop
+  | [] => True
+  | p :: ps => NoReservedT p ∧ NoReservedTList ps
+end
+
+mutual
+def noReservedTB : PT → Bool
+  | .const .. => true
+  | .table .. => true
+  | .point .. => true
+  | .func _ _ dur _ _ _ => !dur.vars.contains "t"
+  | .seq _ subs _ _ => noReservedTBList subs
+  | .rep _ body _ _ _ => noReservedTB body
+  | .forLoop _ body _ _ _ _ _ _ => noReservedTB body
+  | .mapping _ body _ _ _ _ => noReservedTB body
+  | .parallel _ body over => !(kvVars over).contains "t" && noReservedTB body
+  | .atomicMulti _ subs _ _ _ => noReservedTBList subs
+  | .arith _ body _ scalar _ => !(scalarVars scalar).contains "t" && noReservedTB body
+  | .arithAtomic _ lhs _ rhs _ => noReservedTB lhs && noReservedTB rhs
+  | .timeReversal _ body => noReservedTB body
+def noReservedTBList : List PT → Bool
+  | [] => true
+  | p :: ps => noReservedTB p && noReservedTBList ps
+end
+
+mutual
+/-- does the tree contain an `ArithmeticPulseTemplate` (scalar arithmetic)? -/
+def hasArith : PT → Bool
+  | .const .. | .table .. | .point .. | .func .. => false
+  | .seq _ subs _ _ => hasArithList subs
+  | .rep _ body _ _ _ => hasArith body
+  | .forLoop _ body _ _ _ _ _ _ => hasArith body
+  | .mapping _ body _ _ _ _ => hasArith body
+  | .parallel _ body _ => hasArith body
+  | .atomicMulti _ subs _ _ _ => hasArithList subs
+  | .arith .. => true
+  | .arithAtomic _ lhs _ rhs _ => hasArith lhs || hasArith rhs
+  | .timeReversal _ body => hasArith body
+def hasArithList : List PT → Bool
+  | [] => false
+  | p :: ps => hasArith p || hasArithList ps
+end
+
+/-- the class of the open finding PF-14 (reserved name `t`): the assignment binds `t` and the template
+contains a scalar arithmetic node or an expression that uses `t` as the time variable outside a function
+template's formula -/
+def inPF14 (pt : PT) (params : List (String × Rat)) : Bool :=
+  (params.map (·.1)).contains "t" && (hasArith pt || !noReservedTB pt)
+
+/-! ## the independent enumeration of what played nodes evaluate -/
+
+structure Vis where
+  scope : Scope
+  expr : Expr
+  isCons : Bool
+  /-- `some x`: the entry only demands that `x` is a key of the scope (`MappingPulseTemplate._validate_parameters`);
+  `expr` is `.var x` then -/
+  key : Option String := none
+  deriving Repr, Inhabited
+
+def consVis (σ : Scope) (cons : List Expr) : List Vis := cons.map (fun c => ⟨σ, c, true, none⟩)
+def needVis (σ : Scope) (es : List Expr) : List Vis := es.map (fun e => ⟨σ, e, false, none⟩)
+def keyVis (σ : Scope) (xs : List String) : List Vis := xs.map (fun x => ⟨σ, .var x, false, some x⟩)
+
+def evalPair (σ : Scope) (ke : String × Expr) : Option (String × Rat) :=
+  match σ.eval ke.2 with
+  | .ok v => some (ke.1, v)
+  | .error _ => none
+
+/-- the plain dictionary of eagerly mapped values (`map_parameter_values`), if every value exists -/
+def mappedDict (pm : List (String × Expr)) (σ : Scope) : Option Scope :=
+  (pm.mapM (evalPair σ)).map Scope.dict
+
+def tableExprs (entries : List (Chan × List TEntry)) : List Expr :=
+  entries.flatMap (fun ce => ce.2.flatMap (fun e => [e.t, e.v]))
+
+mutual
+/-- nodes reached through `build_waveform` (inside an atomic template) -/
+def visibleA : PT → Scope → List Vis
+  | .const _ dur _ _, σ => needVis σ [dur]
+  | .table _ entries _ cons, σ => consVis σ cons ++ needVis σ (tableExprs entries)
+  | .point _ _ _ _ cons, σ => consVis σ cons
+  | .func _ _ _ _ _ cons, σ => consVis σ cons
+  | .seq .., _ => []
+  | .rep .., _ => []
+  | .forLoop .., _ => []
+  | .mapping _ body pm _ _ cons, σ =>
+      keyVis σ (kvVars pm ++ consVars cons) ++ consVis σ cons ++ needVis σ (pm.map (·.2)) ++
+        (match mappedDict pm σ with
+         | some σ' => visibleA body σ'
+         | none => [])
+  | .parallel _ body _, σ => visibleA body σ
+  | .atomicMulti _ subs _ _ cons, σ => consVis σ cons ++ visibleAList subs σ
+  | .arith _ body _ _ _, σ => visibleA body σ
+  | .arithAtomic _ lhs _ rhs _, σ => visibleA lhs σ ++ visibleA rhs σ
+  | .timeReversal _ body, σ => visibleA body σ
+def visibleAList : List PT → Scope → List Vis
+  | [], _ => []
+  | p :: ps, σ => visibleA p σ ++ visibleAList ps σ
+end
+
+mutual
+/-- nodes reached through `_create_program`, in visiting order, with the scope each one sees -/
+def visible : PT → Scope → List Vis
+  | .const id dur amps meas, σ => visibleA (.const id dur amps meas) σ
+  | .table id entries meas cons, σ => visibleA (.table id entries meas cons) σ
+  | .point id chans entries meas cons, σ => visibleA (.point id chans entries meas cons) σ
+  | .func id ch dur e meas cons, σ => visibleA (.func id ch dur e meas cons) σ
+  | .atomicMulti id subs dur meas cons, σ => visibleA (.atomicMulti id subs dur meas cons) σ
+  | .arithAtomic id lhs minus rhs meas, σ => visibleA (.arithAtomic id lhs minus rhs meas) σ
+  | .seq _ subs _ cons, σ => consVis σ cons ++ visibleList subs σ
+  | .rep _ body count _ cons, σ =>
+      consVis σ cons ++ needVis σ [count] ++
+        (match σ.eval count with
+         | .ok c => (match checkedInt c with
+             | some n => if n ≤ 0 then [] else visible body σ
+             | none => [])
+         | .error _ => [])
+  | .forLoop _ body idx start stop step _ cons, σ =>
+      consVis σ cons ++ needVis σ [start, stop, step] ++
+        (match σ.eval start, σ.eval stop, σ.eval step with
+         | .ok a, .ok b, .ok s => (match checkedInt a, checkedInt b, checkedInt s with
+             | some a, some b, some s =>
+                 if s = 0 then [] else (pyRange a b s).flatMap (fun (i : Int) => visible body (.range σ idx (i : Rat)))
+             | _, _, _ => [])
+         | _, _, _ => [])
+  | .mapping _ body pm _ _ cons, σ => consVis σ cons ++ visible body (.mapped σ pm)
+  | .parallel _ body _, σ => visible body σ
+  | .arith _ body _ _ _, σ => visible body σ
+  | .timeReversal _ body, σ => visible body σ
+def visibleList : List PT → Scope → List Vis
+  | [], _ => []
+  | p :: ps, σ => visible p σ ++ visibleList ps σ
+end
+
+/-- a proper constraint entry (not a key demand) -/
+def Vis.isConstraint (v : Vis) : Bool := v.isCons && v.key.isNone
+
+def consOf (l : List Vis) : List (Scope × Expr) := (l.filter Vis.isConstraint).map (fun v => (v.scope, v.expr))
+
+def visibleConstraints (pt : PT) (σ : Scope) : List (Scope × Expr) := consOf (visible pt σ)
+
+def visibleNeeds (pt : PT) (σ : Scope) : List Vis := (visible pt σ).filter (fun v => !v.isCons)
+
+/-- one constraint in the scope its node sees: `ParameterConstraint.is_fulfilled` -/
+def checkOne (se : Scope × Expr) : Except Err Unit := do
+  let v ← se.1.eval se.2
+  if v = 0 then .error .constraintViolation else pure ()
+
+/-- the judge: the visible constraints validated in visiting order -/
+def consOutcome (l : List (Scope × Expr)) : Except Err Unit := l.forM checkOne
+
+/-- `x` must be a key of the scope (no evaluation) -/
+def presentKey (σ : Scope) (x : String) : Except Err Unit :=
+  if σ.keys.contains x then pure () else .error .parameterMissing
+
+/-- one visible entry in the scope its node sees: a key must be present, an expression must evaluate, a
+constraint must moreover be true -/
+def checkVis (v : Vis) : Except Err Unit :=
+  match v.key with
+  | some x => presentKey v.scope x
+  | none => do
+    let x ← v.scope.eval v.expr
+    if v.isCons = true ∧ x = 0 then .error .constraintViolation else pure ()
+
+/-- specification (Prop) of `checkVis v = ok` -/
+def Vis.Fine (v : Vis) : Prop :=
+  match v.key with
+  | some x => v.scope.keys.contains x = true
+  | none => ∃ x, v.scope.eval v.expr = .ok x ∧ (v.isCons = true → x ≠ 0)
+
+/-- everything the visited nodes must evaluate, in visiting order -/
+def visOutcome (l : List Vis) : Except Err Unit := forM l checkVis
+
+/-- specification (Prop): every visible constraint evaluates true -/
+def AllTrue (l : List (Scope × Expr)) : Prop := ∀ se ∈ l, ∃ v, se.1.eval se.2 = .ok v ∧ v ≠ 0
+/-- specification (Prop): some visible constraint evaluates false -/
+def SomeFalse (l : List (Scope × Expr)) : Prop := ∃ se ∈ l, se.1.eval se.2 = .ok 0
+
+/-! ## line protocol -/
+
 open Sexp
 
-def handle : List Sexp → Sexp
-  | _ => Sexp.err "c03-not-implemented"
+def exprSides : Expr → Option (Cmp × Expr × Expr)
+  | .cmp c a b => some (c, a, b)
+  | _ => none
+
+def cmpTag : Cmp → String
+  | .lt => "lt" | .le => "le" | .eq => "eq" | .ne => "ne" | .gt => "gt" | .ge => "ge"
+
+def resSx : Except Err Rat → Sexp
+  | .ok v => Sexp.ofRat v
+  | .error e => errSx e
+
+/-- `(true|false|(error cls)) cmp lhs-value rhs-value` for one visible constraint -/
+def consSx (se : Scope × Expr) : Sexp :=
+  let st : Sexp := match se.1.eval se.2 with
+    | .ok v => .atom (if v = 0 then "false" else "true")
+    | .error e => errSx e
+  match exprSides se.2 with
+  | some (c, a, b) => .list [st, .atom (cmpTag c), resSx (se.1.eval a), resSx (se.1.eval b)]
+  | none => .list [st, .atom "other"]
+
+def needSx (v : Vis) : Sexp :=
+  match checkVis v with
+  | .ok _ => .atom "ok"
+  | .error e => .atom e.tag
+
+def sortedNames (xs : List String) : List String := (dedup xs).mergeSort (fun a b => a ≤ b)
+
+def outcomeSx : Except Err (Option Loop) → Sexp
+  | .ok (some _) => .atom "program"
+  | .ok none => .atom "empty"
+  | .error e => errSx e
+
+def handle (args : List Sexp) : Sexp :=
+  match args with
+  | .atom "run" :: rest =>
+    match Request.ofSexp rest with
+    | none => Sexp.err "malformed-request"
+    | some r =>
+      let σ : Scope := .dict r.params
+      let cons := visibleConstraints r.pt σ
+      let needs := visibleNeeds r.pt σ
+      .list [
+        .list (.atom "names" :: (sortedNames (parameterNames r.pt)).map Sexp.atom),
+        .list (.atom "pinned" :: (sortedNames (parameterNamesPinned r.pt)).map Sexp.atom),
+        .list [.atom "wf", Sexp.ofBool (wfB r.pt)],
+        .list [.atom "not", Sexp.ofBool (noReservedTB r.pt)],
+        .list [.atom "pf14", Sexp.ofBool (inPF14 r.pt r.params)],
+        .list [.atom "outcome", outcomeSx (createProgram r.pt r.params r.mm r.cm r.single)],
+        .list [.atom "judge", match consOutcome cons with
+          | .ok _ => .atom "all-true"
+          | .error e => errSx e],
+        .list (.atom "cons" :: cons.map consSx),
+        .list (.atom "needs" :: needs.map needSx)]
+  | _ => Sexp.err "unknown-c03-request"
 
 end QP.C03
